@@ -18,4 +18,8 @@ def run(ck):
     relay.check_copy_half(ck, max_turns=2 if ck.tier == 'quick' else 3)
     relay.check_handover(ck)
     replies.spec_frame_channel_handover(ck)
-    ck.post_filter = lambda o: o.label.startswith('C01/') or o.label.startswith('C12/inline-frame-channel') or o.status in ('undecided', 'vacuous') or o.status == 'inconclusive'
+    # "no handshake or framing byte of either hop ever appears inside the tunnelled stream": the reply that tells a SOCKS client the
+    # tunnel is established is written whole (8 bytes for SOCKS4, a full SOCKS5 reply) before the relay takes the stream -- a reply
+    # cut short shifts the client's framing into the tunnelled bytes (shared with C06)
+    replies._socks_callback(ck, 'on_connect')
+    ck.post_filter = lambda o: o.label.startswith('C01/') or o.label.startswith('C12/inline-frame-channel') or o.label.startswith('C06/socks/success-') or o.status in ('undecided', 'vacuous') or o.status == 'inconclusive'
